@@ -456,7 +456,10 @@ static uint64_t edn_value_hash_internal(const edn_value_t* value) {
 
     uint64_t hash = FNV_OFFSET_BASIS;
 
-    hash ^= (uint64_t) value->type;
+    /* Lists and vectors are equal when their elements are, so they must be
+     * seeded alike */
+    edn_type_t seed_type = (value->type == EDN_TYPE_VECTOR) ? EDN_TYPE_LIST : value->type;
+    hash ^= (uint64_t) seed_type;
     hash *= FNV_PRIME;
 
     switch (value->type) {
@@ -504,6 +507,8 @@ static uint64_t edn_value_hash_internal(const edn_value_t* value) {
 
             if (isnan(val.d)) {
                 val.u = 0x7FF8000000000000ULL;
+            } else if (val.d == 0.0) {
+                val.u = 0; /* -0.0 == 0.0, so both must hash alike */
             }
 
             for (size_t i = 0; i < sizeof(uint64_t); i++) {
